@@ -9,6 +9,7 @@ import (
 	"crypto/x509/pkix"
 	"encoding/base64"
 	"encoding/json"
+	"errors"
 	"fmt"
 	"math"
 	"math/big"
@@ -843,8 +844,33 @@ func httpCacheCase(h httpResp, defaultTTL string, cch any) (sets []vkit.SetRec, 
 		sets, _ = rec.Snapshot()
 	}
 
-	return sets, remote.NCalls(), nil
+	calls = remote.NCalls()
+
+	// a sequence over time (the recording cache has a clock of its own): one more request well within the lifetime of what
+	// was stored, then one after the lifetime has passed, counted from when it was stored - that one has to reach the
+	// remote side again, whatever happened in between
+	if isRec && len(sets) >= 1 && sets[0].TTL > 0 {
+		lifetime := sets[0].TTL
+
+		for i := 0; i < 2; i++ {
+			rec.Advance(lifetime * 6 / 10)
+
+			resp, err := w.Send(vkit.EntryDecision, vkit.LogicalRequest{Method: "GET", Host: "svc.example.com", RawPath: "/x",
+				Headers: []vkit.HeaderKV{{Name: "Authorization", Value: "Bearer " + tok}}}, nil)
+			if err != nil || resp.Status != 200 {
+				return nil, 0, fmt.Errorf("unexpected status %d (%v)", resp.Status, err)
+			}
+		}
+
+		if remote.NCalls() == calls {
+			return nil, 0, fmt.Errorf("%w: stored for %v, still served %v later (after a hit in between)", errServedBeyondLifetime, lifetime, lifetime*12/10)
+		}
+	}
+
+	return sets, calls, nil
 }
+
+var errServedBeyondLifetime = errors.New("a stored response was served beyond the lifetime it was stored for")
 
 const kfHTTPNonPositive = "C10-http-response-with-non-positive-freshness-stored"
 
@@ -907,6 +933,10 @@ func TestHTTPResponseCaching(t *testing.T) {
 		}
 
 		sets, calls, err := httpCacheCase(h, defaultTTL, cch)
+		if errors.Is(err, errServedBeyondLifetime) {
+			t.Fatalf("http cache: response %+v (default_ttl=%q): %v", h, defaultTTL, err)
+		}
+
 		if err != nil {
 			t.Fatalf("harness: %v (%+v)", err, h)
 		}
